@@ -9,7 +9,7 @@ From Onet Require Export Base.Corr Api.Rest Api.RestConc Api.Par.
    definition to [true] when the corresponding fix commit lands. *)
 Definition code_fixed_F17 := true.   (* REST: decoded argument allocated per request *)
 Definition code_fixed_F28 := true.   (* client: a kept connection that failed is dropped *)
-Definition code_fixed_C14N1 := false. (* parallel sender: the QuitError path closes [done] under the mutex, once *)
+Definition code_fixed_C14N1 := true. (* parallel sender: the QuitError path closes [done] under the mutex, once *)
 
 Definition code_flags : flags := {| fix_f17 := code_fixed_F17; fix_keep := code_fixed_F28 |}.
 
